@@ -639,3 +639,105 @@ class ExtractGrammar:
         f = args[0]
         p = f.data.get('path') if isinstance(f, models.Opaque) else '?'
         return self.result(self.memo('decode(%s)' % p, ['Err', 'Ok(Regular)', 'Ok(Index)'], 'decode'))
+
+
+# ---------------------------------------------------------------------------------------------
+# transform_js: status vs returned content (C12), through the real glue code
+
+class TransformScenario(ProgramScenario):
+    """rewriter::transform_js(program, file, reader, config, compiler) with Compiler::print as an uninterpreted function"""
+
+    def grammar(self, ctx, program):
+        g = ProgramScenario.grammar(self, ctx, program)
+        g.stubs = dict(g.stubs)
+        g.stubs['Compiler::print'] = self.stub_print
+        g.stubs['Compiler::comments'] = self.stub_comments
+        g.print_calls = []
+        self._g = g
+        return g
+
+    def stub_print(self, I, info, args):
+        g = I.grammar
+        prog = models.deref(args[1])
+        pa = args[2]
+        g.print_calls.append({'program': prog, 'args': pa})
+        out = Adt('TransformOutput', None, [StrV(I.ctx.var('printed_code', z3.StringSort())), models.some(StrV(I.ctx.var('printed_map', z3.StringSort()))), models.none()])
+        return models.ok(out)
+
+    def stub_comments(self, I, info, args):
+        comments = Adt('SwcComments', None, [models.Opaque('leading'), Ptr(Cell(Adt('DashMap', None, [[]])), (), 'arc')])
+        return Ptr(Cell(comments))
+
+    def run(self, I):
+        g = I.grammar
+        P = I.P
+        P.defs.setdefault('PrintArgs', _rd.StructDef('PrintArgs', [(n, '?') for n in ('source_root', 'source_file_name', 'output_path', 'inline_sources_content', 'source_map', 'source_map_names', 'orig', 'comments', 'emit_source_map_columns', 'preamble', 'codegen_config', 'output')], False, []))
+        P.defs.setdefault('TransformOutput', _rd.StructDef('TransformOutput', [('code', 'String'), ('map', 'Option<String>'), ('output', 'Option<String>')], False, []))
+        P.defs.setdefault('DecodedMap', _rd.EnumDef('DecodedMap', [('Regular', [('0', 'SourceMap')], 'tuple'), ('Index', [('0', 'SourceMapIndex')], 'tuple'), ('Hermes', [('0', 'SourceMapHermes')], 'tuple')], []))
+        c = self.cfgspec
+        cfgspec = ConfigSpec(c.entries, c.prefix, c.verbosity, c.literals, c.comments, c.chain)
+        cfg = cfgspec.build(I)
+        if self.prologue:
+            cfg.fields[P.defs['Config'].index('file_prefix_code')] = self.prologue_stmts(g)
+        cfgspec.prologue_code = PROLOGUE_JS if self.prologue else None
+        prog = self.make_program(g)
+        compiler = Adt('Compiler', None, [Ptr(Cell(models.Opaque('SourceMap')), (), 'arc'), models.Opaque('SwcComments')])
+        reader = Adt('DefaultFileReader', None, [])
+        cfg_cell = Cell(cfg)
+        r = I.call_path('rewriter::transform_js', [prog, StrV('dir/test.js'), Ptr(Cell(reader)), Ptr(cfg_cell), Ptr(Cell(compiler))], None)
+        return {'result': r, 'cfgspec': cfgspec, 'I': I, 'prints': g.print_calls}
+
+    def check_path(self, I, ctx, res, replay, do_tv):
+        info = {'violations': [], 'tv': None, 'sample': None, 'obligations': 4, 'hooks': 0}
+        defs = I.P.defs
+        r = res['result']
+        prints = res['prints']
+
+        def vio(role, cond, detail):
+            if cond is False:
+                return
+            if cond is not True and not ctx.check(cond):
+                return
+            info['violations'].append({'prop': 'C12', 'role': role, 'detail': detail, 'witness': {'input': detail, 'agree': True, 'note': 'glue-level obligation on transform_js (Compiler::print stubbed); no native replay'}})
+
+        if r.variant == 1:
+            # Err: only for cancelled rewrites
+            if prints:
+                vio('transform/print-called-for-error-result', True, 'Compiler::print was called although the result is Err')
+            info['sample'] = {'input': 'Err (cancelled)', 'output': '', 'status': 'cancelled', 'hooks': 0}
+            return info
+        out = to_view(r.fields[0], defs)
+        ts = out['transform_status']
+        st = ['Modified', 'NotModified', 'Cancelled'][ts['status']['_d']] if ts is not None else None
+        code, smap = out['code'], out['source_map']
+        if st is None:
+            vio('transform/status-missing', True, '')
+        if st == 'Cancelled':
+            vio('transform/cancelled-returned-as-ok', True, '')
+        if st == 'NotModified':
+            info['hooks'] = 0
+            if prints:
+                vio('transform/print-called-for-unmodified', True, 'the program was printed although nothing was instrumented')
+            vio('transform/unmodified-with-code', O.neg(O.leaf_eq(code, '')), 'code = %s' % (code,))
+            vio('transform/unmodified-with-map', O.neg(O.leaf_eq(smap, '')), 'source_map = %s' % (smap,))
+            if out['original_source_map']['source'] is not None or out['original_source_map']['source_map_comment'] is not None:
+                vio('transform/unmodified-with-original-map', True, '')
+        if st == 'Modified':
+            info['hooks'] = 1
+            if len(prints) != 1:
+                vio('transform/modified-printed-%d-times' % len(prints), True, '')
+            else:
+                vio('transform/modified-code-is-not-the-printed-code', O.neg(O.leaf_eq(code, ctx.vars['printed_code'])), 'code = %s' % (code,))
+                vio('transform/modified-map-is-not-the-printed-map', O.neg(O.leaf_eq(smap, ctx.vars['printed_map'])), 'map = %s' % (smap,))
+                pv = to_view(prints[0]['program'], defs)
+                nh = O.count_hooks(pv)
+                if nh == 0:
+                    vio('transform/modified-without-hook-in-printed-program', True, '')
+                pa = to_view(prints[0]['args'], defs)
+                fn = pa.get('source_file_name')
+                if fn is None or O.leaf_eq(fn, 'test.js') is not True:
+                    vio('transform/source-file-name-is-not-the-base-name', True, 'source_file_name = %s' % (fn,))
+                if pa.get('emit_source_map_columns') is not True:
+                    vio('transform/column-mappings-disabled', True, '')
+        info['sample'] = {'input': 'status %s' % st, 'output': 'prints=%d' % len(prints), 'status': st, 'hooks': info['hooks']}
+        return info
